@@ -925,6 +925,45 @@ static int t_radix (const char *f, int budget)
   printf ("PASS %d\n", budget / 8); return 0;
 }
 
+
+/* ---- C17: mpz_export against the bit-field definition (word w = bits [w*numb, (w+1)*numb) of |z|, nails zero), every order/endian/size/nail;
+   mpz_import of the exported words gives |z| back */
+static unsigned long field_of (const mpz_t z, unsigned long o, unsigned k)       /* k <= 64 bits of |z| starting at bit o */
+{
+  unsigned long v = 0; for (unsigned b = 0; b < k; b++) if (mpz_tstbit (z, o + b)) v |= 1UL << b; return v;
+}
+static int t_export (const char *f, int budget)
+{
+  int only_size = 0, only_nail = -1; const char *bp = strstr (f, "_bytes_n"); if (bp) { only_size = 1; only_nail = atoi (bp + 8); }
+  for (int it = 0; it < budget / 40; it++)
+    {
+      mpz_t z, az; mk_mpz (z, 5); mpz_init (az); mpz_abs (az, z);
+      size_t size = only_size ? only_size : (size_t[]) {1, 2, 3, 4, 8, 8, 16}[rnd64 () % 7];
+      size_t nail = only_nail >= 0 ? (size_t) only_nail : (it % 3 == 0 ? 0 : rnd64 () % (8 * size)); if (it % 5 == 0 && only_nail < 0) nail = 8 * (rnd64 () % size);
+      int order = (rnd64 () & 1) ? 1 : -1, endian = (int) (rnd64 () % 3) - 1; size_t numb = 8 * size - nail;
+      size_t want_count = mpz_sgn (z) ? (mpz_sizeinbase (az, 2) + numb - 1) / numb : 0, count = 12345;
+      unsigned char *buf = malloc (want_count * size + 16); memset (buf, 0xA5, want_count * size + 16);
+      void *ret = mpz_export (buf + 8, &count, order, size, endian, nail, z);                 /* 8-aligned +8: also the aligned fast paths for size 8 */
+      int ok = ret == buf + 8 && count == want_count, e = endian ? endian : -1;
+      for (size_t w = 0; ok && w < count; w++)
+        {
+          unsigned char *wp = buf + 8 + (order == -1 ? w : count - 1 - w) * size;
+          for (size_t j = 0; ok && j < size; j++)                                           /* byte j counted from the least significant byte of the word */
+            {
+              unsigned char got = wp[e == -1 ? j : size - 1 - j]; unsigned long lo = 8 * j; unsigned want = 0;
+              if (lo < numb) want = (unsigned) field_of (az, w * numb + lo, numb - lo < 8 ? (unsigned) (numb - lo) : 8);
+              ok = got == want;
+            }
+        }
+      for (int i = 0; ok && i < 8; i++) ok = buf[i] == 0xA5 && buf[8 + count * size + i] == 0xA5;   /* nothing outside count*size bytes */
+      if (ok && !strncmp (f, "mpz_import", 10))
+        { mpz_t b; mpz_init (b); mk_mpz (b, 3); mpz_import (b, count, order, size, endian, nail, buf + 8); ok = mpz_cmp (b, az) == 0 && (b->_mp_size == 0 || b->_mp_d[b->_mp_size - 1] != 0); mpz_clear (b); }
+      if (!ok) { failed (f); printf (" size=%zu nail=%zu order=%d endian=%d count=%zu want_count=%zu", size, nail, order, endian, count, want_count); show_z ("z", z); printf (" bytes:"); for (size_t i = 0; i < count * size && i < 40; i++) printf (" %02x", buf[8 + i]); printf ("\n"); return 1; }
+      free (buf); mpz_clear (z); mpz_clear (az);
+    }
+  printf ("PASS %d\n", budget / 40); return 0;
+}
+
 int main (int argc, char **argv)
 {
   if (argc < 4) { fprintf (stderr, "usage: native <function> <seed> <budget>\n"); return 2; }
@@ -952,6 +991,7 @@ int main (int argc, char **argv)
   if (!strcmp (f, "mpz_gcd_ui") || !strcmp (f, "mpz_invert") || !strcmp (f, "mpz_lcm")) return t_mpz_gcdfam (f, budget);
   if (!strcmp (f, "mpz_urandomb") || !strcmp (f, "gmp_urandomb_ui") || !strcmp (f, "gmp_urandomm_ui") || !strcmp (f, "mpn_urandomm") || !strcmp (f, "mpz_urandomm") || !strcmp (f, "randseed_lc")) return t_random (f, budget);
   if (!strncmp (f, "mpn_get_str", 11) || !strncmp (f, "mpn_set_str", 11)) return t_radix (f, budget);
+  if (!strncmp (f, "mpz_export", 10) || !strncmp (f, "mpz_import", 10)) return t_export (f, budget);
   if (!strcmp (f, "mpf_cmp")) return t_mpf_cmp (f, budget);
   printf ("no native test for %s\n", f);
   return 3;
